@@ -165,6 +165,12 @@ def analyse(tree):
                     findings.append((q, n.lineno, 'F3', 'call %s()' % f.id))
                 if isinstance(f, ast.Attribute) and f.attr == 'pop' and is_set_expr(f.value, set_names):
                     findings.append((q, n.lineno, 'F3', 'set.pop()'))
+                # a set handed to a repository function may be iterated there (order depends on the hash seed)
+                SAFE = ('len', 'isinstance', 'sorted', 'set', 'frozenset', 'bool', 'any', 'all', 'min', 'max', 'sum', 'print', 'repr', 'str')
+                if callee not in SAFE and not (isinstance(f, ast.Attribute) and f.attr in ('update', 'issubset', 'issuperset', 'union', 'intersection', 'difference', 'add', 'discard', 'remove')):
+                    for a in list(n.args) + [k.value for k in n.keywords]:
+                        if is_set_expr(a, set_names):
+                            findings.append((q, n.lineno, 'F3', 'a set is passed to %s() where it may be iterated' % callee))
                 # iteration of a set through a consumer
                 if callee in ('list', 'tuple', 'enumerate', 'iter', 'next', 'zip', 'map', 'filter', 'join') and n.args:
                     for a in n.args:
